@@ -1,239 +1,213 @@
-import SaModel.Read.Slice
-import SaModel.Spec.DecodeAt
+import SaModel.Lemmas.C12Decode
+import SaModel.Lemmas.C12Struct
+import SaModel.Lemmas.C12Read
+import SaModel.Lemmas.C12Batch
+import SaModel.Lemmas.C12WF
 import SaModel.Props.C02
+import SaModel.Props.C13
 /-
 C12 — deserializing a slice equals slicing the deserialized values.
-Property theorems only.  `sliceView` (SaModel/Read/Slice.lean) models arrow's `slice` + marrow's view conversion.
+Property theorems only (helpers: SaModel/Lemmas/C12*.lean).  `sliceView` (SaModel/Read/Slice.lean) models arrow's
+`slice` + marrow's view conversion; `Spec.decodeAt` are the Arrow reading rules; `readAny` is the reader model (C02).
+
+The theorems hold for EVERY array (every constructor incl. FixedSizeList and sparse Union, any nesting).  Hypotheses:
+the window bounds, and `sliceable a` — the decidable well-formedness `slice` itself relies on: children that are
+sliced ALONG WITH the parent are at least as long as the parent says (Struct children ≥ len, FixedSizeList child ≥ len·n,
+sparse-Union children ≥ number of rows).  It is genuinely needed (`sliceable_needed` below) and implied by Arrow validity.
 -/
 namespace SaModel.Props.C12
-open SaModel SaModel.Read SaModel.Spec
+open SaModel SaModel.Read SaModel.Spec SaModel.Lemmas.C12
 
 /-- the key bit lemma: a bitmap whose bit offset was advanced by `o`, read at `i`, is the original bitmap read at
 `o + i` — windows may start anywhere inside a byte -/
-theorem getBit_shift (b : Bits) (o i : Nat) : getBit (shiftBits b o) i = getBit b (o + i) := by
-  simp only [getBit, shiftBits]
-  have : i + (b.offset + o) = o + i + b.offset := by omega
-  rw [this]
-
-theorem isValid_shift (v : Option Bits) (o i : Nat) : isValid (shiftV v o) i = isValid v (o + i) := by
-  cases v
-  · rfl
-  · simp only [shiftV, isValid, getBit_shift]
+theorem getBit_shift (b : Bits) (o i : Nat) : getBit (shiftBits b o) i = getBit b (o + i) :=
+  Lemmas.C12.getBit_shift b o i
 
 theorem withValidity_shift (v : Option Bits) (o i : Nat) (p : R LVal) :
-    withValidity (shiftV v o) i p = withValidity v (o + i) p := by
-  simp only [withValidity, isValid_shift]
+    withValidity (shiftV v o) i p = withValidity v (o + i) p :=
+  Lemmas.C12.withValidity_shift v o i p
 
-/-! ### windows of lists -/
-
-theorem window_length {α} (xs : List α) (o n : Nat) (h : o + n ≤ xs.length) : (window xs o n).length = n := by
-  simp only [window, List.length_take, List.length_drop]; omega
-
-theorem window_getD {α} (xs : List α) (o n i : Nat) (d : α) (hi : i < n) : (window xs o n).getD i d = xs.getD (o + i) d := by
-  simp only [window, List.getD_eq_getElem?_getD, List.getElem?_take, hi, if_true, List.getElem?_drop]
-
-theorem drop_take_window (data : Bytes) (a b c d : Nat) (h : c + d ≤ b) :
-    ((window data a b).drop c).take d = (data.drop (a + c)).take d := by
-  simp only [window]
-  rw [List.drop_take, List.drop_drop, List.take_take]
-  congr 1
-  omega
-
-/-! `sliceable`: which views `slice` may be applied to without looking at their contents: children that are sliced
-along with the parent are at least as long as the parent says (Arrow validity; struct, fixed-size list, sparse union) -/
-mutual
-def sliceable : Arr → Bool
-  | .struct len _ fs => sliceableFields fs len
-  | .list _ _ _ _ _ => true
-  | .fixedSizeList _ _ _ _ _ => false        -- not covered by `decodeAt_slice_partial` (child sliced to (o·n, l·n))
-  | .dictionary ks _ => sliceable ks
-  | .union types offs fs =>
-    match offs with
-    | some _ => true
-    | none => false                          -- sparse unions: not covered by `decodeAt_slice_partial`
-  | _ => true
-def sliceableFields : ArrFields → Nat → Bool
-  | .nil, _ => true
-  | .cons _ a r, len => decide (len ≤ lenOf a) && sliceable a && sliceableFields r len
-end
-
-/-- the length of a slice -/
-theorem lenOf_slice : ∀ (a : Arr) (o l : Nat), o + l ≤ lenOf a → lenOf (sliceView a o l) = l
-  | .null _, _, _, _ => by simp [sliceView, lenOf]
-  | .boolean _ _ _, _, _, _ => by simp [sliceView, lenOf]
-  | .prim _ _ vals, o, l, h => by simp only [sliceView, lenOf] at h ⊢; exact window_length _ _ _ h
-  | .time _ _ _ vals, o, l, h => by simp only [sliceView, lenOf] at h ⊢; exact window_length _ _ _ h
-  | .timestamp _ _ _ vals, o, l, h => by simp only [sliceView, lenOf] at h ⊢; exact window_length _ _ _ h
-  | .decimal128 _ _ _ vals, o, l, h => by simp only [sliceView, lenOf] at h ⊢; exact window_length _ _ _ h
-  | .bytes _ _ offs _, o, l, h => by
-    simp only [sliceView, lenOf] at h ⊢
-    by_cases h0 : offs.length = 0
-    · simp only [window, List.length_take, List.length_drop]; omega
-    · rw [window_length _ _ _ (by omega)]; omega
-  | .bytesView _ _ views _, o, l, h => by simp only [sliceView, lenOf] at h ⊢; exact window_length _ _ _ h
-  | .fixedSizeBinary n _ data, o, l, h => by
-    simp only [sliceView, lenOf] at h ⊢
-    by_cases hn : n ≤ 0
-    · simp only [hn, if_true] at h ⊢; omega
-    · simp only [hn, if_false] at h ⊢
-      have hpos : 0 < n.toNat := by omega
-      have : (o + l) * n.toNat ≤ data.length := by
-        have := Nat.mul_le_mul_right n.toNat h
-        have := Nat.div_mul_le_self data.length n.toNat
-        omega
-      rw [window_length _ _ _ (by rw [Nat.add_mul] at this; omega)]
-      exact Nat.mul_div_cancel l hpos
-  | .struct _ _ _, _, _, _ => by simp [sliceView, lenOf]
-  | .list _ _ offs _ _, o, l, h => by
-    simp only [sliceView, lenOf] at h ⊢
-    by_cases h0 : offs.length = 0
-    · simp only [window, List.length_take, List.length_drop]; omega
-    · rw [window_length _ _ _ (by omega)]; omega
-  | .fixedSizeList _ _ _ _ _, _, _, _ => by simp [sliceView, lenOf]
-  | .map _ offs _ _ _, o, l, h => by
-    simp only [sliceView, lenOf] at h ⊢
-    by_cases h0 : offs.length = 0
-    · simp only [window, List.length_take, List.length_drop]; omega
-    · rw [window_length _ _ _ (by omega)]; omega
-  | .dictionary ks _, o, l, h => by
-    simp only [sliceView, lenOf] at h ⊢
-    exact lenOf_slice ks o l h
-  | .union types offs _, o, l, h => by
-    simp only [sliceView, lenOf] at h ⊢
-    cases offs <;> simp only [lenOf] <;> exact window_length _ _ _ h
+/-- the length of a slice (all types) -/
+theorem lenOf_slice (a : Arr) (o l : Nat) (h : o + l ≤ lenOf a) : lenOf (sliceView a o l) = l :=
+  Lemmas.C12.lenOf_slice a o l h
 
 /-! ### decoding commutes with slicing -/
 
-mutual
-/-- `C12_slice`, slot-wise: reading slot `i` of the slice is reading slot `o + i` of the whole array — for every
-leaf type, Struct (children sliced recursively), List / LargeList / Map / dense Union (children untouched, addressed
-by absolute offsets) and Dictionary (keys sliced), nested to any depth.
-PARTIAL: `sliceable` excludes FixedSizeList (child sliced to (o·n, l·n)) and sparse unions (children sliced);
-for those the statement is validated by the `slice` suite only (driver check `sliceView` + decoded rows). -/
-theorem decodeAt_slice_partial : ∀ (a : Arr) (o l i : Nat), i < l → o + l ≤ lenOf a → sliceable a = true →
-    decodeAt (sliceView a o l) i = decodeAt a (o + i)
-  | .null len, o, l, i, hi, h, _ => by
-    simp only [lenOf] at h
-    have : o + i < len := by omega
-    simp only [sliceView, decodeAt, hi, this, if_true]
-  | .boolean len v vals, o, l, i, hi, h, _ => by
-    simp only [lenOf] at h
-    have : o + i < len := by omega
-    simp only [sliceView, decodeAt, hi, this, if_true, withValidity_shift, getBit_shift]
-  | .prim ty v vals, o, l, i, hi, h, _ => by
-    simp only [lenOf] at h
-    have : o + i < vals.length := by omega
-    simp only [sliceView, decodeAt, window_length _ _ _ h, hi, this, if_true, withValidity_shift, window_getD _ _ _ _ _ hi]
-  | .time ty u v vals, o, l, i, hi, h, _ => by
-    simp only [lenOf] at h
-    have : o + i < vals.length := by omega
-    simp only [sliceView, decodeAt, window_length _ _ _ h, hi, this, if_true, withValidity_shift, window_getD _ _ _ _ _ hi]
-  | .timestamp u tz v vals, o, l, i, hi, h, _ => by
-    simp only [lenOf] at h
-    have : o + i < vals.length := by omega
-    simp only [sliceView, decodeAt, window_length _ _ _ h, hi, this, if_true, withValidity_shift, window_getD _ _ _ _ _ hi]
-  | .decimal128 p sc v vals, o, l, i, hi, h, _ => by
-    simp only [lenOf] at h
-    have : o + i < vals.length := by omega
-    simp only [sliceView, decodeAt, window_length _ _ _ h, hi, this, if_true, withValidity_shift, window_getD _ _ _ _ _ hi]
-  | .bytes ty v offs data, o, l, i, hi, h, _ => by
-    simp only [lenOf] at h
-    have hl : o + (l + 1) ≤ offs.length := by omega
-    have h1 : o + i < offs.length - 1 := by omega
-    have h2 : i < l + 1 - 1 := by omega
-    simp only [sliceView, decodeAt, window_length _ _ _ hl, h1, h2, if_true, withValidity_shift,
-      window_getD _ _ _ _ _ (show i < l + 1 by omega), window_getD _ _ _ _ _ (show i + 1 < l + 1 by omega), Nat.add_assoc]
-  | .bytesView ty v views buffers, o, l, i, hi, h, _ => by
-    simp only [lenOf] at h
-    have : o + i < views.length := by omega
-    simp only [sliceView, decodeAt, window_length _ _ _ h, hi, this, if_true, withValidity_shift, window_getD _ _ _ _ _ hi]
-  | .fixedSizeBinary n v data, o, l, i, hi, h, _ => by
-    simp only [lenOf] at h
-    by_cases hn : n ≤ 0
-    · simp only [hn, if_true] at h; omega
-    · simp only [hn, if_false] at h
-      have hpos : 0 < n.toNat := by omega
-      have hmul : (o + l) * n.toNat ≤ data.length := by
-        have := Nat.mul_le_mul_right n.toNat h
-        have := Nat.div_mul_le_self data.length n.toNat
-        omega
-      have hw : o * n.toNat + l * n.toNat ≤ data.length := by rw [Nat.add_mul] at hmul; exact hmul
-      have h1 : o + i < data.length / n.toNat := by omega
-      have h2 : i < (l * n.toNat) / n.toNat := by rw [Nat.mul_div_cancel l hpos]; exact hi
-      have h3 : i * n.toNat + n.toNat ≤ l * n.toNat := by
-        have := Nat.mul_le_mul_right n.toNat (show i + 1 ≤ l by omega)
-        rw [Nat.add_mul] at this; omega
-      simp only [sliceView, decodeAt, hn, if_false, window_length _ _ _ hw, h1, h2, if_true, withValidity_shift,
-        drop_take_window _ _ _ _ _ h3, Nat.add_mul]
-  | .struct len v fs, o, l, i, hi, h, hs => by
-    simp only [lenOf] at h
-    simp only [sliceable] at hs
-    have : o + i < len := by omega
-    simp only [sliceView, decodeAt, hi, this, if_true, withValidity_shift, decodeFieldsAt_slice fs len o l i hi h hs]
-  | .list lg v offs fm el, o, l, i, hi, h, _ => by
-    simp only [lenOf] at h
-    have hl : o + (l + 1) ≤ offs.length := by omega
-    have h1 : o + i < offs.length - 1 := by omega
-    have h2 : i < l + 1 - 1 := by omega
-    simp only [sliceView, decodeAt, window_length _ _ _ hl, h1, h2, if_true, withValidity_shift,
-      window_getD _ _ _ _ _ (show i < l + 1 by omega), window_getD _ _ _ _ _ (show i + 1 < l + 1 by omega), Nat.add_assoc]
-  | .fixedSizeList _ _ _ _ _, _, _, _, _, _, hs => by simp [sliceable] at hs
-  | .map v offs mm ks vs, o, l, i, hi, h, _ => by
-    simp only [lenOf] at h
-    have hl : o + (l + 1) ≤ offs.length := by omega
-    have h1 : o + i < offs.length - 1 := by omega
-    have h2 : i < l + 1 - 1 := by omega
-    simp only [sliceView, decodeAt, window_length _ _ _ hl, h1, h2, if_true, withValidity_shift,
-      window_getD _ _ _ _ _ (show i < l + 1 by omega), window_getD _ _ _ _ _ (show i + 1 < l + 1 by omega), Nat.add_assoc]
-  | .dictionary ks vs, o, l, i, hi, h, hs => by
-    simp only [lenOf] at h
-    simp only [sliceable] at hs
-    have : o + i < lenOf ks := by omega
-    simp only [sliceView, decodeAt, lenOf_slice ks o l h, hi, this, if_true, decodeAt_slice_partial ks o l i hi h hs]
-  | .union types offs fs, o, l, i, hi, h, hs => by
-    simp only [lenOf] at h
-    cases offs with
-    | none => simp [sliceable] at hs
-    | some ofs =>
-      have h1 : o + i < types.length := by omega
-      have hlen : (i < (window ofs o l).length) = (o + i < ofs.length) := by
-        simp only [window, List.length_take, List.length_drop, eq_iff_iff]; omega
-      simp only [sliceView, decodeAt, window_length _ _ _ h, hi, h1, if_true, window_getD _ _ _ _ _ hi, hlen]
-theorem decodeFieldsAt_slice : ∀ (fs : ArrFields) (len o l i : Nat), i < l → o + l ≤ len → sliceableFields fs len = true →
-    decodeFieldsAt (sliceFields fs o l) i = decodeFieldsAt fs (o + i)
-  | .nil, _, _, _, _, _, _, _ => by simp only [sliceFields, decodeFieldsAt]
-  | .cons fm a rest, len, o, l, i, hi, h, hs => by
-    simp only [sliceableFields, Bool.and_eq_true, decide_eq_true_eq] at hs
-    simp only [sliceFields, decodeFieldsAt, decodeAt_slice_partial a o l i hi (by omega) hs.1.2,
-      decodeFieldsAt_slice rest len o l i hi h hs.2]
-end
+/-- `C12_slice`, slot-wise: reading slot `i` of the slice is reading slot `o + i` of the whole array — for every leaf
+type, Struct (children sliced recursively), List / LargeList / Map / dense Union (children untouched, addressed by
+absolute offsets), FixedSizeList (child sliced to (o·n, l·n)), sparse Union (children sliced) and Dictionary (keys
+sliced), nested to any depth. -/
+theorem decodeAt_slice (a : Arr) (o l i : Nat) (hi : i < l) (h : o + l ≤ lenOf a) (hs : sliceable a = true) :
+    decodeAt (sliceView a o l) i = decodeAt a (o + i) :=
+  Lemmas.C12.decodeAt_slice a o l i hi h hs
 
-/-- slices of slices read as the composed window (for the covered types; a corollary of `decodeAt_slice_partial`
-applied twice — the inner slice of a sliceable view is sliceable for the covered constructors is NOT needed here:
-the statement is about the decoded slots of the composed and the chained windows of the *original* array) -/
-theorem slice_slice_partial (a : Arr) (o1 l1 o2 l2 i : Nat) (hi : i < l2) (h2 : o2 + l2 ≤ l1) (h1 : o1 + l1 ≤ lenOf a)
-    (hs : sliceable a = true) (hs' : sliceable (sliceView a o1 l1) = true) :
-    decodeAt (sliceView (sliceView a o1 l1) o2 l2) i = decodeAt (sliceView a (o1 + o2) l2) i := by
-  rw [decodeAt_slice_partial (sliceView a o1 l1) o2 l2 i hi (by rw [lenOf_slice a o1 l1 h1]; exact h2) hs',
-    decodeAt_slice_partial a o1 l1 (o2 + i) (by omega) h1 hs,
-    decodeAt_slice_partial a (o1 + o2) l2 i hi (by omega) hs, Nat.add_assoc]
+/-- hence the decoded rows of the slice are the window of the decoded rows of the whole array -/
+theorem decodeAt_slice_rows (a : Arr) (o l : Nat) (h : o + l ≤ lenOf a) (hs : sliceable a = true) :
+    (List.range l).map (decodeAt (sliceView a o l)) = (List.range l).map (fun i => decodeAt a (o + i)) := by
+  apply List.map_congr_left
+  intro i hi
+  exact decodeAt_slice a o l i (List.mem_range.mp hi) h hs
+
+/-- `sliceable` cannot be dropped: a Struct of 2 rows whose child has only 1 row (invalid Arrow). `slice(0, 2)` relabels
+the child as 2 rows long, so row 1 of the slice decodes while row 1 of the array is out of range. -/
+theorem sliceable_needed :
+    let a : Arr := .struct 2 none (.cons ⟨"c", false, []⟩ (.struct 1 none .nil) .nil)
+    sliceable a = false ∧ 0 + 2 ≤ lenOf a ∧ decodeAt (sliceView a 0 2) 1 ≠ decodeAt a (0 + 1) := by decide
+
+/-- `sliceable` is implied by Arrow validity as spelled out for C03 (`Spec.WF`, which C03 `C03_wf` proves of every array
+the crate's builders return): every such array may be sliced with any window inside its bounds -/
+theorem WF_sliceable (f : Field) (a : Arr) (h : WF f a = true) : sliceable a = true :=
+  Lemmas.C12.WF_sliceable f a h
+
+/-! ### slices of slices -/
+
+/-- slicing twice IS slicing once by the composed window: the two views are equal field for field (bit offsets add,
+windows of windows are windows, FixedSizeList / Struct / sparse-Union children recursively).  Structural: no hypothesis
+on the array, only that the second window lies inside the first. -/
+theorem sliceView_sliceView (a : Arr) (o1 l1 o2 l2 : Nat) (h : o2 + l2 ≤ l1) :
+    sliceView (sliceView a o1 l1) o2 l2 = sliceView a (o1 + o2) l2 :=
+  sliceView_sliceView' a o1 l1 o2 l2 h
+
+/-- a slice (inside the bounds) of a well-formed view is well-formed: chains of slices stay inside the theorems -/
+theorem sliceable_slice (a : Arr) (o l : Nat) (h : o + l ≤ lenOf a) (hs : sliceable a = true) :
+    sliceable (sliceView a o l) = true :=
+  Lemmas.C12.sliceable_slice a o l h hs
+
+/-- slices of slices read as the corresponding window of the original array -/
+theorem slice_slice (a : Arr) (o1 l1 o2 l2 i : Nat) (hi : i < l2) (h2 : o2 + l2 ≤ l1) (h1 : o1 + l1 ≤ lenOf a)
+    (hs : sliceable a = true) :
+    decodeAt (sliceView (sliceView a o1 l1) o2 l2) i = decodeAt a (o1 + o2 + i) := by
+  rw [sliceView_sliceView a o1 l1 o2 l2 h2, decodeAt_slice a (o1 + o2) l2 i hi (by omega) hs]
+
+/-! ### the readers -/
+
+/-- slicing never touches the type skeleton (names, integer widths, variant tables) -/
+theorem toD_slice (a : Arr) (o l : Nat) (lv : LVal) : toD (sliceView a o l) lv = toD a lv :=
+  Lemmas.C12.toD_slice a o l lv
+
+/-- a reader can be built on the slice whenever it can be built on the array (`ArrayDeserializer::new`) -/
+theorem new_slice (a : Arr) (o l : Nat) (h : o + l ≤ lenOf a) (hs : sliceable a = true)
+    (hn : new Fixes.all a = .ok ()) : new Fixes.all (sliceView a o l) = .ok () :=
+  Lemmas.C12.new_slice Fixes.all a o l h hs hn
 
 /-- hence (C02) the readers agree: `deserialize_any` of slot `i` of the slice = of slot `o + i` of the whole array.
-`hshape` says the slice has the same type skeleton (names, integer widths) as the array — `sliceView` never touches
-those; it is discharged by computation for concrete arrays and validated by the `slice` suite. -/
-theorem read_slice_partial (a : Arr) (o l i : Nat) (lv : LVal) (hi : i < l) (h : o + l ≤ lenOf a)
+Besides the window and `sliceable`, the hypotheses are those of C02 `read_any_decode` ON THE WHOLE ARRAY ONLY (slot
+`o + i` has a defined Arrow reading, the reader can be built, lengths fit Rust's `usize`, strings are UTF-8); everything
+about the slice (`new`, `physical`, the type skeleton) is derived. -/
+theorem read_slice (a : Arr) (o l i : Nat) (lv : LVal) (hi : i < l) (h : o + l ≤ lenOf a)
     (hs : sliceable a = true) (hd : decodeAt a (o + i) = .ok lv)
-    (hn1 : new Fixes.all a = .ok ()) (hn2 : new Fixes.all (sliceView a o l) = .ok ())
-    (hp1 : physical a = true) (hp2 : physical (sliceView a o l) = true) (hu : utf8Ok lv = true)
-    (hshape : toD (sliceView a o l) lv = toD a lv) :
+    (hn : new Fixes.all a = .ok ()) (hp : physical a = true) (hu : utf8Ok lv = true) :
     readAny Fixes.all (sliceView a o l) i = readAny Fixes.all a (o + i) := by
-  rw [SaModel.Props.C02.read_any_decode _ _ lv (by rw [decodeAt_slice_partial a o l i hi h hs]; exact hd) hn2 hp2 hu,
-    SaModel.Props.C02.read_any_decode a (o + i) lv hd hn1 hp1 hu, hshape]
+  rw [SaModel.Props.C02.read_any_decode _ _ lv (by rw [decodeAt_slice a o l i hi h hs]; exact hd)
+      (new_slice a o l h hs hn) (physical_slice a o l h hs hp) hu,
+    SaModel.Props.C02.read_any_decode a (o + i) lv hd hn hp hu, toD_slice]
 
-/-! non-vacuity: a window that starts inside a bitmap byte, on a nullable list of nullable ints -/
+/-- sparse unions: the Arrow-level statement (`decodeAt_slice`) covers them, but the crate never reads one — building
+the reader fails (`enum_deserializer.rs`: "Only dense unions are supported"), before and after slicing alike -/
+theorem new_sparse_union_fails (types : List Int) (fs : ArrUFields) (o l : Nat) :
+    new Fixes.all (.union types none fs) = fail "Only dense unions are supported" ∧
+    new Fixes.all (sliceView (.union types none fs) o l) = fail "Only dense unions are supported" := by
+  simp only [sliceView, Lemmas.C12.new_sparse_union_fails, and_self]
+
+/-! ### record batches: `RecordBatch::slice(o, l)` slices every column with the one window
+
+`Deserializer::new` (Access.lean `new`, C13) checks the columns' lengths and builds the root reader `batch len cols`;
+`get(i)` (Access.lean `getIdx`) hands record `i` to it. -/
+
+/-- the Arrow-level form: record `i` of the sliced batch decodes as record `o + i` of the whole batch -/
+theorem batch_decodeAt_slice (cols : ArrFields) (len o l i : Nat) (hi : i < l) (h : o + l ≤ len)
+    (hs : sliceableFields cols len = true) :
+    decodeAt (batch l (sliceFields cols o l)) i = decodeAt (batch len cols) (o + i) :=
+  decodeAt_slice (batch len cols) o l i hi h hs
+
+/-- the reader form.  If `Deserializer::new` accepted the whole batch with `len` records (`hctor`) and the columns are
+well-formed, then for every window `o + l ≤ len`: the constructor accepts the sliced batch and reports `l` records,
+`get i` (i < l) on the slice and `get (o + i)` on the whole batch both hand out a record, and reading them
+(`deserialize_any`) gives the same result.  `hd … hu`: the C02 hypotheses on the WHOLE batch only. -/
+theorem batch_read_slice (cols : ArrFields) (len o l i : Nat) (lv : LVal)
+    (hctor : Access.new true cols.length (colLens cols) = .ok len)
+    (hi : i < l) (h : o + l ≤ len) (hs : sliceableCols cols = true)
+    (hd : decodeAt (batch len cols) (o + i) = .ok lv)
+    (hn : newFields Fixes.all cols = .ok ()) (hp : physicalFields cols = true) (hu : utf8Ok lv = true) :
+    Access.new true (sliceFields cols o l).length (colLens (sliceFields cols o l)) = .ok l ∧
+    Access.getIdx l i = some i ∧ Access.getIdx len (o + i) = some (o + i) ∧
+    readAny Fixes.all (batch l (sliceFields cols o l)) i = readAny Fixes.all (batch len cols) (o + i) := by
+  obtain ⟨hlen, hall, hnil⟩ := (SaModel.Props.C13.ctor_checks _ _ _).mp hctor
+  have hsf : sliceableFields cols len = true := sliceableFields_of_cols Fixes.all cols len hall hn hs
+  refine ⟨?_, ?_, ?_, ?_⟩
+  · rw [SaModel.Props.C13.ctor_checks]
+    refine ⟨by rw [colLens_length], colLens_slice Fixes.all cols len o l h hsf hn, ?_⟩
+    intro hnil'
+    cases cols with
+    | nil => have := hnil rfl; omega
+    | cons _ _ _ => simp [sliceFields, colLens] at hnil'
+  · rw [SaModel.Props.C13.get_eq]; simp only [hi, if_true]
+  · rw [SaModel.Props.C13.get_eq]; simp only [show o + i < len by omega, if_true]
+  · exact read_slice (batch len cols) o l i lv hi h hsf hd hn hp hu
+
+/-- the one-column record reader the `slice` suite drives (`Reader.record`, `Deserializer::from_marrow(&[field], &[view])`)
+is the one-column batch: the record reader over the sliced column is the slice of the record reader over the column -/
+theorem record_slice (fm : FieldMeta) (col : Arr) (o l : Nat) (h : o + l ≤ lenOf col) (hs : sliceable col = true)
+    (hn : new Fixes.all col = .ok ()) :
+    record fm (sliceView col o l) = sliceView (record fm col) o l := by
+  simp only [record, sliceView, sliceFields, shiftV, vlen_eq_lenOf Fixes.all _ (new_slice col o l h hs hn), lenOf_slice col o l h]
+
+/-! ### non-vacuity -/
+
+/-- a window that starts inside a bitmap byte, on a nullable list of nullable ints -/
 example :
     let a : Arr := .list false (some ⟨[0b10110101, 0b1], 0⟩) [0, 1, 1, 3, 3, 4, 6, 6, 7, 9] ⟨"element", true, []⟩
       (.prim .int32 (some ⟨[0b11011011, 0b1], 0⟩) [1, 2, 3, 4, 5, 6, 7, 8, 9])
+    sliceable a = true ∧
     (List.range 4).map (decodeAt (sliceView a 3 4)) = (List.range 4).map (fun i => decodeAt a (3 + i)) := by decide
+
+/-- FixedSizeList(2) of nullable Struct{nullable int8, FixedSizeList(3) of bool}: 5 rows (one null), child of 10, grand
+child of 30; the window (1, 3) starts inside the parent's, the child's (bit 2) and the grandchild's (bit 6) bitmap bytes;
+every row decodes to a non-error value and the rows differ -/
+def fslExample : Arr :=
+  .fixedSizeList 5 (some ⟨[0b11011], 0⟩) 2 ⟨"element", true, []⟩
+    (.struct 10 (some ⟨[0b11101111, 0b11], 0⟩)
+      (.cons ⟨"x", true, []⟩ (.prim .int8 (some ⟨[0b01111011, 0b11], 0⟩) [0, 1, 2, 3, 4, 5, 6, 7, 8, 9])
+      (.cons ⟨"y", false, []⟩ (.fixedSizeList 10 none 3 ⟨"element", false, []⟩
+          (.boolean 30 none ⟨[0b10010110, 0b01101001, 0b11110000, 0b00101101], 0⟩)) .nil)))
+
+example : sliceable fslExample = true ∧ 1 + 3 ≤ lenOf fslExample ∧
+    ((List.range 5).map (decodeAt fslExample)).all (·.isOk) = true ∧
+    decodeAt fslExample 1 ≠ decodeAt fslExample 3 ∧ decodeAt fslExample 2 = .ok .null ∧
+    (List.range 3).map (decodeAt (sliceView fslExample 1 3)) = (List.range 3).map (fun i => decodeAt fslExample (1 + i)) ∧
+    sliceView (sliceView fslExample 1 3) 1 2 = sliceView fslExample 2 2 := by decide
+
+/-- the example is a valid Arrow array of its field in the sense of C03 -/
+example : WF (.mk "c" (.fixedSizeList (.mk "element" (.struct (.cons (.mk "x" .int8 true [])
+    (.cons (.mk "y" (.fixedSizeList (.mk "element" .boolean false []) 3) false []) .nil))) true []) 2) true []) fslExample = true := by
+  decide
+
+/-- the reader on the same example: all hypotheses of `read_slice` hold for slot 1 + 2, and the read succeeds -/
+example : readAny Fixes.all (sliceView fslExample 1 3) 2 = readAny Fixes.all fslExample (1 + 2) ∧
+    (readAny Fixes.all fslExample (1 + 2)).isOk = true :=
+  ⟨read_slice fslExample 1 3 2 _ (by decide) (by decide) (by decide) rfl (by decide) (by decide) (by decide), by decide⟩
+
+/-- a sparse union {0: int32, 1: utf8} of 4 rows, window (1, 2) -/
+def sparseExample : Arr :=
+  .union [0, 1, 1, 0] none
+    (.cons 0 ⟨"i", false, []⟩ (.prim .int32 none [10, 11, 12, 13])
+    (.cons 1 ⟨"s", false, []⟩ (.bytes .utf8 none [0, 1, 2, 4, 4] [97, 98, 99, 100]) .nil))
+
+example : sliceable sparseExample = true ∧ 1 + 2 ≤ lenOf sparseExample ∧
+    decodeAt sparseExample 1 = .ok (.union 1 (.str [98])) ∧ decodeAt sparseExample 2 = .ok (.union 1 (.str [99, 100])) ∧
+    (List.range 2).map (decodeAt (sliceView sparseExample 1 2)) = (List.range 2).map (fun i => decodeAt sparseExample (1 + i)) := by
+  decide
+
+/-- a record batch of two columns (nullable utf8, FixedSizeList(2) of int16), 3 records, window (1, 2) -/
+def batchExample : ArrFields :=
+  .cons ⟨"s", true, []⟩ (.bytes .utf8 (some ⟨[0b101], 0⟩) [0, 1, 1, 3] [97, 98, 99])
+  (.cons ⟨"p", false, []⟩ (.fixedSizeList 3 none 2 ⟨"element", false, []⟩ (.prim .int16 none [1, 2, 3, 4, 5, 6])) .nil)
+
+example : (Access.new true (sliceFields batchExample 1 2).length (colLens (sliceFields batchExample 1 2)) = .ok 2 ∧
+    Access.getIdx 2 1 = some 1 ∧ Access.getIdx 3 (1 + 1) = some (1 + 1) ∧
+    readAny Fixes.all (batch 2 (sliceFields batchExample 1 2)) 1 = readAny Fixes.all (batch 3 batchExample) (1 + 1)) ∧
+    (readAny Fixes.all (batch 3 batchExample) (1 + 1)).isOk = true :=
+  ⟨batch_read_slice batchExample 3 1 2 1 _ (by decide) (by decide) (by decide) (by decide) rfl (by decide) (by decide)
+    (by decide), by decide⟩
 
 end SaModel.Props.C12
